@@ -176,6 +176,10 @@ def client_opts(p: Program, extra=None):
                 n = it.__dict__.setdefault("_uuid", [0])
                 n[0] += 1
                 return Obj(None, label=f"<uuid{n[0]}>")
+            if callee.dotted == "uuid.UUID" and not args and set(kwargs) == {"int"} and isinstance(kwargs["int"], Const):
+                # an id made from a number: the same number gives the same (equal) id
+                table = it.__dict__.setdefault("_uuid_by_int", {})
+                return table.setdefault(kwargs["int"].v, Obj(None, label=f"<uuid:int:{kwargs['int'].v}>"))
         return None
 
     o = {"inline": pol, "instantiate": inst, "foreign_model": fm, "max_depth": 14, "strict_keys": True}
